@@ -69,7 +69,7 @@ class UnitResult:
              'undecided': [o for o in self.obligations if o['status'] == 'undecided'],
              'unsupported': self.unsupported, 'secs': round(self.secs, 3), 'solver_secs': round(self.solver_secs, 3),
              'error': self.error, 'crosscheck': self.crosscheck, 'canaries': self.canaries, 'src_hash': self.src_hash,
-             'by_backend': {}, 'contracts_used': sorted(self.contracts_used),
+             'by_backend': {}, 'contracts_used': sorted(self.contracts_used), 'lemmas_used': sorted(getattr(self, 'lemmas_used', set())),
              'clauses': {}}
         for o in self.obligations:
             if o['status'] == 'discharged':
@@ -81,7 +81,7 @@ class UnitResult:
 
 
 # ------------------------------------------------------------------ running a unit symbolically
-def make_runner(c, f, mutate, sink, fixed=None):
+def make_runner(c, f, mutate, sink, fixed=None, case=None):
     node, _ = function_ast(f)
     if mutate and c.target in mutate:
         node = mutate[c.target]
@@ -100,6 +100,9 @@ def make_runner(c, f, mutate, sink, fixed=None):
         values = dict(env)
         if c.requires is not None:
             for cl in clauses(eval_cfn(ip, c.requires, values)):
+                st.assume(ip.zbool(cl))
+        if case is not None:
+            for cl in clauses(eval_cfn(ip, _plain_fn(c.cases[case][1]), values)):
                 st.assume(ip.zbool(cl))
         if not st.ghost.get('_presat_done'):
             if not st.feasible(z3.BoolVal(True)):
@@ -152,7 +155,12 @@ def make_runner(c, f, mutate, sink, fixed=None):
         finally:
             tag()
             st.x.contracts_used = getattr(st.x, 'contracts_used', set()) | st.ghost.get('contracts_used', set())
+            st.x.lemmas_used = getattr(st.x, 'lemmas_used', set()) | st.ghost.get('lemmas_used', set())
     return run
+
+
+def _plain_fn(f):
+    return f.__func__ if isinstance(f, (staticmethod, classmethod)) else f
 
 
 def _reachable(ip, heap, v, acc):
@@ -370,7 +378,7 @@ def _solve(ob, both):
         ctx = ob.ctx
         if ctx is not None:
             try:
-                nargs = {name: b.from_model(ctx['ip'], m, ctx['env'][name]) for name, b in ctx['sig'].items()}
+                nargs = {name: b.from_model(ctx['ip'], m, ctx['env'][name]) for name, b in ctx['sig'].items() if not isinstance(b, api.Const)}
                 out['nargs'] = pickle.dumps(nargs)
             except Exception as ex:
                 out['nargs_error'] = 'model concretisation failed: %r' % ex
@@ -380,59 +388,85 @@ def _solve(ob, both):
     return out
 
 
-def _fork_solve(ob, both):
+def _fork_batch(batch, both):
+    """child solves the obligations of `batch` in order, streaming one length-prefixed pickle per result"""
     r, w = os.pipe()
     pid = os.fork()
     if pid == 0:
         code = 0
         try:
             os.close(r)
-            res = _solve(ob, both)
-            data = pickle.dumps(res)
             with os.fdopen(w, 'wb') as fh:
-                fh.write(data)
+                for ob in batch:
+                    try:
+                        res = _solve(ob, both)
+                    except BaseException as ex:
+                        res = {'status': 'undecided', 'backend': None, 'reason': 'solver child error: %r' % ex, 'secs': 0.0}
+                    data = pickle.dumps(res)
+                    fh.write(len(data).to_bytes(8, 'little') + data)
+                    fh.flush()
         except BaseException:
             code = 1
         finally:
             os._exit(code)
     os.close(w)
+    os.set_blocking(r, False)
     return pid, r
 
 
+BATCH = int(os.environ.get('PYVC_SOLVER_BATCH', '12'))
+
+
 def discharge_all(obs, both=False, threads=None):
-    """discharge obligations in forked children (<= threads at a time) with a hard wall-clock limit each"""
+    """discharge obligations in forked children (<= threads at a time, a batch of obligations per child) with a
+    hard wall-clock limit per obligation: a solver that ignores its timeout is killed and the obligation is undecided"""
     threads = threads or int(os.environ.get('PYVC_SOLVER_PROCS', '4'))
     limit = (Z3_QUICK_MS + Z3_TIMEOUT_MS) / 1000.0 + max(CVC5_TIMEOUT_MS, Z3_TIMEOUT_MS) / 1000.0 + 15
     pending = list(obs)
-    running = []
+    running = []      # [batch, pid, fd, t_last, buf, next_index]
+    bsize = max(1, min(BATCH, (len(pending) + threads - 1) // threads))
     while pending or running:
         while pending and len(running) < threads:
-            ob = pending.pop(0)
-            pid, fd = _fork_solve(ob, both)
-            os.set_blocking(fd, False)
-            running.append([ob, pid, fd, time.time(), b""])
+            batch, pending = pending[:bsize], pending[bsize:]
+            pid, fd = _fork_batch(batch, both)
+            running.append([batch, pid, fd, time.time(), b"", 0])
         still = []
         for item in running:
-            ob, pid, fd, t0, buf = item
-            done = False
+            batch, pid, fd, t_last, buf, nxt = item
+            eof = False
             try:
                 while True:
                     chunk = os.read(fd, 1 << 16)
                     if not chunk:
-                        done = True
+                        eof = True
                         break
                     item[4] += chunk
             except BlockingIOError:
                 pass
-            if done:
-                os.close(fd)
-                os.waitpid(pid, 0)
+            while len(item[4]) >= 8:
+                n = int.from_bytes(item[4][:8], 'little')
+                if len(item[4]) < 8 + n:
+                    break
+                data, item[4] = item[4][8:8 + n], item[4][8 + n:]
                 try:
-                    res = pickle.loads(item[4])
+                    res = pickle.loads(data)
                 except Exception:
-                    res = {'status': 'undecided', 'backend': None, 'reason': 'solver child failed', 'secs': time.time() - t0}
-                _apply(ob, res)
-            elif time.time() - t0 > limit:
+                    res = {'status': 'undecided', 'backend': None, 'reason': 'unreadable solver result', 'secs': 0.0}
+                _apply(batch[item[5]], res)
+                item[5] += 1
+                item[3] = time.time()
+            if item[5] >= len(batch) or eof:
+                os.close(fd)
+                try:
+                    os.kill(pid, 9)
+                except OSError:
+                    pass
+                os.waitpid(pid, 0)
+                rest = batch[item[5]:]
+                if rest:       # child died early
+                    _apply(rest[0], {'status': 'undecided', 'backend': None, 'reason': 'solver child died', 'secs': 0.0})
+                    pending = rest[1:] + pending
+            elif time.time() - item[3] > limit:
                 try:
                     os.kill(pid, 9)
                     os.system("pkill -9 -P %d >/dev/null 2>&1" % pid)
@@ -440,12 +474,14 @@ def discharge_all(obs, both=False, threads=None):
                     pass
                 os.close(fd)
                 os.waitpid(pid, 0)
-                _apply(ob, {'status': 'undecided', 'backend': None, 'reason': 'solver exceeded hard limit of %ds (killed)' % limit, 'secs': time.time() - t0})
+                rest = batch[item[5]:]
+                _apply(rest[0], {'status': 'undecided', 'backend': None, 'reason': 'solver exceeded hard limit of %ds (killed)' % limit, 'secs': limit})
+                pending = rest[1:] + pending
             else:
                 still.append(item)
         running = still
         if running:
-            time.sleep(0.01)
+            time.sleep(0.005)
     return obs
 
 
@@ -730,9 +766,12 @@ def replay_failed(c, f, ob):
         return {'inputs': None, 'error': ob.need_model or 'no model available'}
     try:
         nargs = pickle.loads(ob.smt2)
+        for name, b in c.sig.items():
+            if isinstance(b, api.Const):
+                nargs[name] = b.v
     except Exception as ex:
         return {'inputs': None, 'error': 'cannot unpickle inputs: %r' % ex}
-    shown = repr({k: _norm_native(v) for k, v in nargs.items()})[:3000]
+    shown = repr({k: _norm_native(v) for k, v in nargs.items() if not isinstance(c.sig.get(k), api.Const)})[:3000]
     try:
         chk = native_check(c, f, nargs)
     except Exception as ex:
@@ -752,7 +791,7 @@ def mutate_function(f, old, new, count=1):
 
 
 # ------------------------------------------------------------------ top level
-def verify_unit(c, mutate=None, do_cross=True, cross_n=40, seed=0, both=False, replay=True):
+def verify_unit(c, mutate=None, do_cross=True, cross_n=40, seed=0, both=False, replay=True, cases=None):
     import hashlib
     res = UnitResult(c.target)
     t0 = time.time()
@@ -762,9 +801,19 @@ def verify_unit(c, mutate=None, do_cross=True, cross_n=40, seed=0, both=False, r
         res.src_hash = hashlib.sha1(ast.dump(node).encode()).hexdigest()[:12]
         x = Explorer(c.target, max_paths=c.options.get('max_paths', 4000))
         sink = []
-        x.explore(make_runner(c, f, mutate, sink))
+        if c.cases is None:
+            x.explore(make_runner(c, f, mutate, sink))
+        else:
+            allobs = {}
+            for ci in (cases if cases is not None else range(len(c.cases))):
+                x.unit = "%s[%s]" % (c.target, c.cases[ci][0])
+                x.obligations = {}
+                x.explore(make_runner(c, f, mutate, sink, case=ci))
+                allobs.update(x.obligations)
+            x.obligations = allobs
         res.paths = x.paths
         res.contracts_used = getattr(x, 'contracts_used', set())
+        res.lemmas_used = getattr(x, 'lemmas_used', set())
         res.unsupported = [{'trace': [t for t in tr[-6:]], 'reason': r} for tr, r in x.unsupported]
         discharge_all(list(x.obligations.values()), both=both)
         for ob in x.obligations.values():
@@ -826,8 +875,10 @@ def verify_lemma(lm, both=False):
             for ob in st.x.obligations.values():
                 if ob.ctx is None:
                     ob.ctx = ctx
+            st.x.lemmas_used = getattr(st.x, 'lemmas_used', set()) | (st.ghost.get('lemmas_used', set()) - {lm.name})
         x.explore(run)
         res.paths = x.paths
+        res.lemmas_used = getattr(x, 'lemmas_used', set())
         res.unsupported = [{'trace': tr[-6:], 'reason': r} for tr, r in x.unsupported]
         discharge_all(list(x.obligations.values()), both=both)
         for ob in x.obligations.values():
